@@ -8,6 +8,7 @@ import (
 	"os"
 	"path/filepath"
 	"sort"
+	"strings"
 	"time"
 
 	"github.com/vipnode/vipnode/v2/pool/store"
@@ -187,7 +188,7 @@ func c13Golden(ctx *Ctx, i int) {
 		ctx.Emit(Case{I: i, Kind: "golden-database", Desc: map[string]interface{}{"fixture": "harness/golden/v2"}, Monitor: mon})
 		return
 	}
-	defer st.Close()
+	defer func() { st.Close() }()
 	// the identifiers are the fixture's own (keys are not reproducible across processes)
 	var nodes, wallets []string
 	for id := range want.Nodes {
@@ -219,5 +220,99 @@ func c13Golden(ctx *Ctx, i int) {
 			mon = append(mon, fmt.Sprintf("c13-golden-nonce: a higher nonce of %s is refused after the restart: %v", id, err))
 		}
 	}
-	ctx.Emit(Case{I: i, Kind: "golden-database", Desc: map[string]interface{}{"fixture": "harness/golden/v2", "nodes": len(want.Nodes), "wallets": len(want.AcctBal)}, Monitor: mon})
+	// the pool keeps running on the opened database: new links on wallets that already have some,
+	// a trial balance folded in, a link moved -- what is acknowledged now joins what was there
+	lists := map[string][]string{}
+	bal := map[string]*big.Int{}
+	for w, l := range want.AcctNode {
+		lists[w] = strings.Fields(strings.Trim(l, "[]"))
+		bal[w], _ = new(big.Int).SetString(want.AcctBal[w], 10)
+	}
+	var trial, linkedWallets []string
+	for id, b := range want.NodeBal {
+		if strings.HasPrefix(b, "/") {
+			trial = append(trial, id)
+		}
+	}
+	for w := range lists {
+		linkedWallets = append(linkedWallets, w)
+	}
+	sort.Strings(trial)
+	sort.Slice(linkedWallets, func(a, b int) bool { return len(lists[linkedWallets[a]]) > len(lists[linkedWallets[b]]) })
+	steps := 0
+	if len(trial) >= 2 && len(linkedWallets) >= 3 && bal[linkedWallets[0]] != nil {
+		remove := func(l []string, x string) (out []string) {
+			for _, y := range l {
+				if y != x {
+					out = append(out, y)
+				}
+			}
+			return
+		}
+		link := func(w, id string) {
+			steps++
+			if err := st.AddAccountNode(store.Account(w), store.NodeID(id)); err != nil {
+				mon = append(mon, fmt.Sprintf("c13-golden-link: linking node %s to wallet %s on the opened database failed: %v", shortID(id), w, err))
+				return
+			}
+			if nb := want.NodeBal[id]; strings.HasPrefix(nb, "/") {
+				c, _ := new(big.Int).SetString(nb[1:], 10)
+				bal[w] = new(big.Int).Add(bal[w], c)
+				want.NodeBal[id] = w + "/"
+			}
+			for o := range lists {
+				lists[o] = remove(lists[o], id)
+			}
+			lists[w] = append(lists[w], id)
+		}
+		big3, one1, other := linkedWallets[0], linkedWallets[1], linkedWallets[2]
+		link(big3, trial[0])
+		link(one1, trial[1])
+		if len(lists[other]) > 0 {
+			link(one1, lists[other][0])
+		}
+		check := func(when string) {
+			for w, l := range lists {
+				ns, err := st.GetAccountNodes(store.Account(w))
+				var g []string
+				for _, n := range ns {
+					g = append(g, string(n))
+				}
+				sort.Strings(g)
+				wl := append([]string{}, l...)
+				sort.Strings(wl)
+				if err != nil || fmt.Sprint(g) != fmt.Sprint(wl) {
+					var sg, sw []string
+					for _, x := range g {
+						sg = append(sg, shortID(x))
+					}
+					for _, x := range wl {
+						sw = append(sw, shortID(x))
+					}
+					mon = append(mon, fmt.Sprintf("c13-golden-links: %s, wallet %s lists nodes %v (error %v); its links written before the upgrade plus the ones acknowledged since are %v", when, w, sg, err, sw))
+				}
+				for _, id := range l {
+					if err := st.IsAccountNode(store.Account(w), store.NodeID(id)); err != nil {
+						mon = append(mon, fmt.Sprintf("c13-golden-links: %s, node %s is not authorised for wallet %s any more: %v", when, shortID(id), w, err))
+					}
+				}
+				if b, err := st.GetAccountBalance(store.Account(w)); err != nil || b.Credit.Cmp(bal[w]) != 0 {
+					mon = append(mon, fmt.Sprintf("c13-golden-links: %s, wallet %s has credit %v (error %v), expected %s", when, w, b.Credit, err, bal[w]))
+				}
+			}
+		}
+		check("after linking on the opened database")
+		if err := st.Close(); err == nil {
+			if st2, err := retryOpen(badgerstore.Open, badgerOpts(tmp)); err == nil {
+				st = st2
+				check("after another restart")
+			} else {
+				mon = append(mon, fmt.Sprintf("c13-golden-open: the database does not open again after the new links: %v", err))
+			}
+		}
+		if len(mon) > 8 {
+			mon = mon[:8]
+		}
+	}
+	ctx.Emit(Case{I: i, Kind: "golden-database", Desc: map[string]interface{}{"fixture": "harness/golden/v2", "nodes": len(want.Nodes), "wallets": len(want.AcctBal), "links_added": steps}, Monitor: mon})
 }
